@@ -288,7 +288,8 @@ def main(argv):
         extra = {"mutation_corpus": [{"mutant": r["name"], "status": r["status"][:120], "caught_by": r["caught"], "missed": r["missed"]} for r in res],
                  "mutants_run": len(res), "mutants_caught": len([r for r in res if r["caught"] and not r["missed"]])}
         for r in res:
-            print("mutant %-40s %s" % (r["name"], "caught" if (r["caught"] and not r["missed"]) else r["status"] if r["status"] != "ok" else "MISSED"))
+            quiet_ok = not r["caught"] and not r["missed"] and r["status"] == "ok"
+            print("mutant %-40s %s" % (r["name"], "caught" if (r["caught"] and not r["missed"] and r["status"] == "ok") else "quiet (negative control)" if quiet_ok else r["status"] if r["status"] != "ok" else "MISSED"))
         if missed:
             print("CHECKER-WEAKNESS: mutants not caught by %s: %s" % (a.prop.upper(), missed))
     obl, new, listed = run_property(a.prop.upper(), a.tier, a.facts, a.repo, extra_cov=extra)
